@@ -86,7 +86,130 @@ fn all_keys(max: usize) -> Vec<Vec<u8>> {
     out
 }
 
+/// Mode `live`: the download decisions of the live actor (hook H7). Entries enter a document through
+/// the real store actor under a random policy; the replica events it emits are handed to the live
+/// actor's own handler, neighbours then announce content. Content is *selected for download exactly
+/// when* the policy selects the entry's key: a selected entry whose sender has the content gets a
+/// download queued at once, a selected entry whose sender lacks it is remembered and queued when a
+/// neighbour announces the content, and the content of an entry that is not selected is never queued
+/// or remembered, whoever announces it. Every entry has its own content hash; an entry is judged
+/// only while the policy in force still decides about its key as it did when the entry arrived.
+fn live_mode(ctx: &mut Ctx) {
+    use iroh_docs::{actor::OpenOpts, Capability, ContentStatus, Event, NamespaceSecret};
+    let rt = crate::act::runtime(2);
+    rt.block_on(async {
+        let mut node = match super::c11::make_node(200 + ctx.shard as u8).await {
+            Ok(n) => n,
+            Err(e) => {
+                ctx.harness_error(format!("cannot create live actor: {e:?}"));
+                return;
+            }
+        };
+        let provider = iroh::SecretKey::from_bytes(&[77u8; 32]).public();
+        let neighbour = iroh::SecretKey::from_bytes(&[78u8; 32]).public();
+        let mut unique = 0u64;
+        for case in ctx.cases(1_500, 100_000) {
+            let mut rng = ctx.rng(case);
+            ctx.eval();
+            let secret = NamespaceSecret::from_bytes(&rng.fill32());
+            let ns = secret.id();
+            let uni = crate::gen::Universe::with(secret.clone(), 2);
+            let (tx, rx) = async_channel::unbounded::<Event>();
+            if node.sync.import_namespace(Capability::Write(secret)).await.is_err() || node.sync.open(ns, OpenOpts::default().sync().subscribe(tx)).await.is_err() {
+                ctx.harness_error("cannot open the document");
+                return;
+            }
+            let mut policy: Option<P> = None;
+            // (hash, key, selected when it arrived, sender had the content, announced since)
+            let mut seen: Vec<(iroh_blobs::Hash, Vec<u8>, bool, bool, bool)> = vec![];
+            let mut keys: Vec<Vec<u8>> = vec![];
+            let mut trace: Vec<String> = vec![];
+            let mut both = (false, false);
+            'steps: for step in 0..rng.range(4, 16) {
+                match rng.below(8) {
+                    0 => {
+                        let p = gen_policy(&mut rng);
+                        let _ = node.sync.set_download_policy(ns, real(&p)).await;
+                        trace.push(format!("policy {p:?}"));
+                        policy = Some(p);
+                    }
+                    1 | 2 if !seen.is_empty() => {
+                        // a neighbour announces content
+                        let i = rng.below(seen.len());
+                        let (hash, key, ..) = seen[i].clone();
+                        node.actor.verif_on_neighbor_content_ready(ns, neighbour, hash).await;
+                        seen[i].4 = true;
+                        trace.push(format!("neighbour has the content of {}", hex::encode(&key)));
+                        ctx.count("content_announcements", 1);
+                    }
+                    _ => {
+                        unique += 1;
+                        let k = key(&mut rng, &keys, 3);
+                        keys.push(k.clone());
+                        let data = format!("live-{}-{case}-{unique}", ctx.shard);
+                        let hash = iroh_blobs::Hash::new(data.as_bytes());
+                        let rec = iroh_docs::Record::new(hash, data.len() as u64, uni.t0 + step as u64 + 1);
+                        let e = iroh_docs::SignedEntry::from_parts(&uni.ns, &uni.authors[rng.below(2)], &k, rec);
+                        let has = rng.chance(1, 2);
+                        let status = if has { ContentStatus::Complete } else if rng.chance(1, 2) { ContentStatus::Missing } else { ContentStatus::Incomplete };
+                        let r = node.sync.insert_remote(ns, e, *provider.as_bytes(), status).await;
+                        let mut events = 0;
+                        while let Ok(ev) = rx.try_recv() {
+                            events += 1;
+                            if let Err(e) = node.actor.verif_on_replica_event(ev).await {
+                                ctx.harness_error(format!("replica event handler: {e:?}"));
+                                break 'steps;
+                            }
+                        }
+                        let selected = policy.as_ref().map(|p| spec_matches(p, &k)).unwrap_or(true);
+                        trace.push(format!("entry {} (sender {} the content) -> {}; the policy {} it", hex::encode(&k), if has { "has" } else { "lacks" }, if r.is_ok() { "applied" } else { "refused" }, if selected { "selects" } else { "does not select" }));
+                        if r.is_ok() && events == 1 {
+                            seen.push((hash, k, selected, has, false));
+                            ctx.count("entries_arrived", 1);
+                            if selected { both.0 = true } else { both.1 = true }
+                        }
+                    }
+                }
+                // judge every entry seen so far
+                for (hash, k, sel, has, announced) in &seen {
+                    let now = policy.as_ref().map(|p| spec_matches(p, k)).unwrap_or(true);
+                    if now != *sel {
+                        continue;
+                    }
+                    let (queued, missing) = node.actor.verif_download_state(hash);
+                    ctx.count("download_decisions_checked", 1);
+                    let sig = if !*sel && (queued || missing) {
+                        Some(if queued { "content-of-an-entry-the-policy-excludes-is-downloaded" } else { "content-of-an-entry-the-policy-excludes-is-remembered-for-download" })
+                    } else if *sel && (*has || *announced) && !queued {
+                        Some("content-of-a-selected-entry-is-not-downloaded")
+                    } else if *sel && !*has && !*announced && !(missing && !queued) {
+                        Some("selected-entry-whose-sender-lacks-the-content-is-not-remembered")
+                    } else {
+                        None
+                    };
+                    if let Some(sig) = sig {
+                        ctx.violation(case, sig, json!({"key": hex::encode(k), "selected": sel, "sender_had_content": has, "announced": announced, "queued": queued, "remembered_missing": missing, "trace": trace}));
+                        break 'steps;
+                    }
+                }
+            }
+            let _ = node.sync.close(ns).await;
+            if both.0 && both.1 {
+                ctx.nontrivial(h64(format!("{trace:?}").as_bytes()));
+            }
+            if ctx.want_sample() {
+                ctx.sample(json!({"case": case, "mode": "live", "trace": trace}));
+            }
+        }
+        let _ = node.actor.verif_shutdown().await;
+        node._ep.close().await;
+    });
+}
+
 pub fn run(ctx: &mut Ctx) {
+    if ctx.mode.as_deref() == Some("live") {
+        return live_mode(ctx);
+    }
     let scratch = Scratch::new();
     let keys = all_keys(3);
     let ns = namespace(1);
